@@ -102,3 +102,50 @@ Definition store_spec_b (scale : Z -> Z) (data : list (list Z)) (n : Z) (spikes 
   | None => false
   | Some sps => waves_eqb obs (map (fun sp => masked_window 0 scale data n sp q_ch) sps)
   end.
+
+(* ================= stage 2: store look-up and the declarative clauses of the comparator ================= *)
+Section Spec2.
+Context {A : Type}.
+Variable zero : A.
+Variable scale : A -> A.
+
+(* which columns of a look-up receive data: the queried channel is stored for the spike AND is not
+   repeated later in the query (NumPy's fancy assignment out[i, :, cols0] = ... writes each stored channel
+   once, at the position _index_of gives: the LAST occurrence in the query) *)
+Fixpoint keep_flags (stored q : list Z) : list bool :=
+  match q with
+  | [] => []
+  | ch :: r => (memZ ch stored && negb (memZ ch r)) :: keep_flags stored r
+  end.
+
+(* one row of a look-up: the scaled sample where the flag is set, zero elsewhere *)
+Definition mask_row (flags : list bool) (row : list A) : list A :=
+  map (fun p : bool * A => if fst p then scale (snd p) else zero) (combine flags row).
+
+(* what a look-up returns for one stored spike: its window ON THE QUERIED CHANNELS, times the unit factor,
+   restricted to the columns that receive data *)
+Definition lookup_window (data : list (list A)) (n : Z) (sp : spike) (q_ch : list Z) : list (list A) :=
+  map (mask_row (keep_flags (sp_ch sp) q_ch)) (window zero data (sp_s sp) n q_ch).
+
+(* the stored-channel flags alone (what the property claims) *)
+Definition stored_flags (stored q : list Z) : list bool := map (fun ch => memZ ch stored) q.
+
+(* queried channels other than -1 are pairwise distinct *)
+Definition distinct_real (q : list Z) : Prop := NoDup (filter (fun c => negb (c =? -1)) q).
+
+(* ---- declarative clauses (cell-level meaning through Window_Spec: no default value involved) ---- *)
+Definition Extract_Spec (data : list (list A)) (samples : list Z) (n : Z) (chans : list Z)
+                        (obs : list (list (list A))) : Prop :=
+  Forall2 (fun s w => Window_Spec zero data s n chans w) samples obs.
+
+Definition Export_Spec (data : list (list A)) (n : Z) (spikes : list spike) (obs : list (list (list A))) : Prop :=
+  Forall2 (fun sp W => exists w0, Window_Spec zero data (sp_s sp) n (sp_ch sp) w0 /\ W = map (map scale) w0)
+          spikes obs.
+
+(* q_pos = positions, in the store, of the queried ids *)
+Definition Store_Spec (data : list (list A)) (n : Z) (spikes : list spike) (q_pos q_ch : list Z)
+                      (obs : list (list (list A))) : Prop :=
+  Forall2 (fun p W => exists sp w0, nth_error spikes (Z.to_nat p) = Some sp /\
+                        Window_Spec zero data (sp_s sp) n q_ch w0 /\
+                        W = map (mask_row (stored_flags (sp_ch sp) q_ch)) w0) q_pos obs.
+End Spec2.
